@@ -12,8 +12,13 @@ fields("DispersiveMeasure", _acquisition_identifier=REF("AcquisitionIdentifier")
 observer("ICircuitOperation.listing", params=dict(self=OP), returns=SEQ(OP), reads=["graph"])
 # decomposed_operations: returns the listing; its only side effect is the hand-down of relation links (assumed interface
 # contract; the composite implementation is checked by the bounded stand-ins of C01/C02)
+DECOMP_ENS = ["seq_is(result, self.listing)",
+              # every operation that HAS a relation keeps it (only relation-less first-level operations receive the block's link)
+              "forall_obj(ICircuitOperation, lambda o: old(o.relation_link.reference_node) is None or o.relation_link is old(o.relation_link))"]
 contract("ICircuitOperation.decomposed_operations", params=dict(self=OP), returns=SEQ(OP), verify=False, modifies=REL_FIELDS,
-         ensures=["seq_is(result, self.listing)"])
+         ensures=DECOMP_ENS)
+contract("CircuitCompositeOperation.decomposed_operations", params=dict(self=REF("CircuitCompositeOperation")), returns=SEQ(OP), verify=False,
+         modifies=REL_FIELDS, ensures=DECOMP_ENS, note="assumed (same as the interface contract); checked by the bounded stand-ins of C01 / C02")
 observer("IAcquisitionComponent.acquisition_identifier", params=dict(self=REF("IAcquisitionComponent")), returns=REF("AcquisitionIdentifier"),
          reads=[], ensures=["not typeis(self, DispersiveMeasure) or result is self._acquisition_identifier"], props=P)
 refines("DispersiveMeasure.acquisition_identifier", "IAcquisitionComponent.acquisition_identifier", props=P)
